@@ -2,7 +2,10 @@ module gocqlverif
 
 go 1.19
 
-require github.com/gocql/gocql v0.0.0
+require (
+	github.com/gocql/gocql v0.0.0
+	github.com/gocql/gocql/lz4 v0.0.0
+)
 
 require (
 	github.com/golang/snappy v0.0.3 // indirect
@@ -11,3 +14,5 @@ require (
 )
 
 replace github.com/gocql/gocql => /repo
+
+replace github.com/gocql/gocql/lz4 => /repo/lz4
